@@ -7473,6 +7473,9 @@ write_make_seq(ostream &out, Object *obj, const std::string &ClassName,
 
   out <<
     "  PyObject *tuple = PyTuple_New(count);\n"
+    "  if (tuple == nullptr) {\n"
+    "    return nullptr;\n"
+    "  }\n"
     "\n"
     "  for (Py_ssize_t i = 0; i < count; ++i) {\n"
     "    PyObject *index = Dtool_WrapValue(i);\n";
